@@ -83,7 +83,11 @@ def harness(g, chart, level, canary=False):
         if kind == 'entry' and ident == 0 and sit == 'int_a_ext_b':
             return "send('a', x=7)"
         return None
-    sc, trs, cm = cg.build(chart, naming, code, priorities=prio)
+    # declaration order: canonical (sorted by source) or rotated, so that same-source transitions are not adjacent
+    decl = g.choice('decl', 2) if m >= 3 else 0
+    tro = (list(range(1, m)) + [0]) if decl else None
+    tro = ([0] + list(range(2, m)) + [1]) if decl and m >= 3 else tro
+    sc, trs, cm = cg.build(chart, naming, code, priorities=prio, tr_order=tro)
     it = Interpreter(sc, initial_context={'G': G})
     it.execute_once()
     conf = it.configuration
